@@ -486,7 +486,18 @@ class from_kafka(Source):
             # establish connection with broker to fetch oauth token for kafka
             self.consumer.poll(timeout=1)
             self.consumer.get_watermark_offsets(tp)
-            self.loop.add_callback(self.poll_kafka)
+            if not self._running:
+                # otherwise the previous polling loop has not noticed the
+                # stop() yet and simply carries on: never two loops at once
+                self._running = True
+                self.loop.add_callback(self._poll_once)
+
+    @gen.coroutine
+    def _poll_once(self):
+        try:
+            yield self.poll_kafka()
+        finally:
+            self._running = False
 
     def _close_consumer(self):
         if self.consumer is not None:
@@ -636,7 +647,18 @@ class FromKafkaBatched(Source):
             # connection with broker to fetch oauth token for kafka
             self.consumer.poll(timeout=1)
             self.consumer.get_watermark_offsets(tp)
-            self.loop.add_callback(self.poll_kafka)
+            if not self._running:
+                # otherwise the previous polling loop has not noticed the
+                # stop() yet and simply carries on: never two loops at once
+                self._running = True
+                self.loop.add_callback(self._poll_once)
+
+    @gen.coroutine
+    def _poll_once(self):
+        try:
+            yield self.poll_kafka()
+        finally:
+            self._running = False
 
 
 @Stream.register_api(staticmethod)
